@@ -358,3 +358,27 @@ def paths_of(op):
     if k in ("copy", "move"):
         return [Shadow.join(op["base"], op["src"]), Shadow.join(op["base"], op["dst"])]
     return []
+
+
+def hdf5_abs_dest_quirk(ref, op):
+    """libhdf5 2.0.0 (bundled with h5py 3.16) fails H5Ocopy with 'message type not found'
+    when the copy is issued from a non-root group G with an *absolute* destination whose
+    first segment is the name of a non-group child of G (e.g. f['d'].copy('a', '/a/b') with
+    dataset /d/a).  This is a defect of the reference library, not of the code under test;
+    such ops are excluded (the plain reference itself misbehaves)."""
+    if op["op"] != "copy" or op.get("base", "/") in ("/", ""):
+        return False
+    dst = op["dst"]
+    if op.get("how") == "group":
+        dst = dst if dst.startswith("/") else Shadow.join(op["base"], dst)
+        dst = dst.rstrip("/") + "/x"
+    if not dst.startswith("/"):
+        return False
+    first = dst.strip("/").split("/")[0]
+    try:
+        g = ref[op["base"]]
+        if first in g and not hasattr(g[first], "keys"):
+            return True
+    except Exception:
+        return False
+    return False
